@@ -86,9 +86,55 @@ func genC08TimeoutTie(r *Rnd, t Tier) *Case {
 	return &Case{Sc: sc}
 }
 
+// genC08GateWait: the cancellation (every source that needs no Timeout) arrives while the execution waits for
+// a bulkhead permit or a rate limiter grant that it would have got - the holder releases before the max wait
+// time is over - with the gate outside the retry/hedge policy, so nothing re-examines the cancellation after
+// the gate's own answer.
+func genC08GateWait(r *Rnd, t Tier) *Case {
+	unit := ms
+	sc := &Scenario{Family: "c08"}
+	hold := time.Duration(r.Range(10, 30)) * unit
+	var gate PolicySpec
+	if r.P(0.7) {
+		gate = PolicySpec{Kind: KBulkhead, MaxConc: 1, MaxWait: hold + time.Duration(r.Range(1, 30))*unit}
+	} else {
+		gate = PolicySpec{Kind: KLimiter, Smooth: true, Interval: hold, MaxWait: hold + time.Duration(r.Range(1, 30))*unit}
+	}
+	core := genRetry(r, unit)
+	core.MaxRetries = pick(r, 1, 2)
+	sc.Policies = []PolicySpec{gate, core}
+	stack := []int{0, 1}
+	if r.P(0.3) {
+		b := genBreaker(r, unit)
+		b.FailThr += 3
+		sc.Policies = append(sc.Policies, b)
+		stack = []int{2, 0, 1}
+	}
+	sc.Stacks = [][]int{stack, {0}}
+	sc.Scripts = []Script{genScript(r, unit, r.Range(1, 3), pick(r, 0.3, 0.7)), {Outcomes: []Outcome{{Dur: hold, Coop: CoopIgnore}}}}
+	src := pick(r, SrcCtxDeadline, SrcCtxDeadline, SrcCtxCancel, SrcResultCancel)
+	op := Op{Kind: "exec", CancelSrc: src, Entry: pick(r, EnGetExec, EnRunExec, EnGet)}
+	at := time.Duration(r.Range(1, int(hold/unit)-1)) * unit // while waiting at the gate
+	switch src {
+	case SrcCtxDeadline:
+		op.Ctx, op.CtxD, op.CtxCause = CtxDeadline, at, r.P(0.3)
+	case SrcCtxCancel:
+		op.Ctx, op.CancelAt = CtxCancel, at
+	default:
+		op.Entry = pick(r, EnGetExecAsync, EnRunExecAsync)
+		op.CancelAt = at
+	}
+	sc.Clients = []Client{{Ops: []Op{{Kind: "exec", Stack: 1, Script: 1, Entry: EnGet}}}, {Ops: []Op{{Kind: "sleep", Dur: unit / 2}, op}}}
+	terminating(sc)
+	return &Case{Sc: sc}
+}
+
 func genC08(r *Rnd, t Tier) *Case {
 	if r.P(0.04) {
 		return genC08SlowLosers(r, t)
+	}
+	if r.P(0.04) {
+		return genC08GateWait(r, t)
 	}
 	if r.P(0.04) {
 		return genC08TimeoutTie(r, t)
@@ -446,6 +492,10 @@ func checkC08(c *checkCtx) {
 				// arrived: two causes overlap and either may be named. Once the enclosing retry policy has
 				// moved on (scheduled the retry), that Timeout's verdict belongs to a finished attempt.
 				c.cov("c08.result_is_coinciding_attempt_timeout")
+			} else if n := earlyFull(sc, v); gateRejection(got.Err) && n != nil && errors.Is(got.Err, bulkhead.ErrFull) {
+				// "full" before the max wait time was over is not a rejection: the wait was ended by the cancellation
+				c.fail("C08.cause", fmt.Sprintf("src=%s got=ErrFull-before-max-wait", srcNames[src]),
+					fmt.Sprintf("exec %d: %s fired while the execution waited for a bulkhead permit; the bulkhead at position %d answered ErrFull after %v of its %v max wait time and the caller received (%s, %s), which does not identify the cause (%v)", v.ID, srcNames[src], n.Pos, n.Exit.T-n.Enter.T, v.policyAt(sc, n.Pos).MaxWait, fmtVal(got.Val), fmtErr(got.Err), cause))
 			} else if gateRejection(got.Err) {
 				// refused by a bulkhead, rate limiter or breaker: that is how this execution completed, whatever the
 				// cancellation did (contention with the other clients differs from the base schedule)
@@ -582,6 +632,20 @@ func validC08(sc *Scenario) bool {
 		}
 	}
 	return n == 1
+}
+
+// earlyFull: a bulkhead of this execution that answered ErrFull although its max wait time had not elapsed.
+func earlyFull(sc *Scenario, v *ExecView) *Node {
+	for _, n := range v.Nodes {
+		p := v.policyAt(sc, n.Pos)
+		if p == nil || p.Kind != KBulkhead || n.Exit == nil || len(n.Children) != 0 {
+			continue
+		}
+		if errors.Is(n.Exit.Err, bulkhead.ErrFull) && n.Exit.T-n.Enter.T < p.MaxWait {
+			return n
+		}
+	}
+	return nil
 }
 
 func gateRejection(err error) bool {
@@ -736,7 +800,8 @@ func quiescentAtCancel(sc *Scenario, v *ExecView, c1seq int, tc time.Duration) b
 		if p == nil || (p.Kind != KBulkhead && p.Kind != KLimiter) {
 			continue
 		}
-		if n.Enter.Seq < c1seq && len(n.Children) == 0 && (n.Exit == nil || n.Exit.Seq > c1seq) && n.Enter.T < tc {
+		// (a deadline is an instant, not a logged action: a wait that ends at that very instant was still going on)
+		if n.Enter.Seq < c1seq && len(n.Children) == 0 && (n.Exit == nil || n.Exit.Seq > c1seq || n.Exit.T >= tc) && n.Enter.T < tc {
 			return false // was waiting for a permit
 		}
 	}
